@@ -53,7 +53,13 @@ from django_components.dependencies import (
     set_component_attrs_for_js_and_css,
 )
 from django_components.node import BaseNode
-from django_components.perfutil.component import ComponentRenderer, component_context_cache, component_post_render
+from django_components.perfutil.component import (
+    ComponentRenderer,
+    child_component_attrs,
+    component_context_cache,
+    component_post_render,
+    component_renderer_cache,
+)
 from django_components.perfutil.provide import register_provide_reference, unregister_provide_reference
 from django_components.provide import get_injected_context_var
 from django_components.slots import (
@@ -969,11 +975,14 @@ class Component(
     ) -> str:
         # Modify the error to display full component path (incl. slots)
         with component_error_message([self.name]):
+            # Filled in by `_render_impl()`, so that we can clean up after a failed render
+            render_state: Dict[str, Any] = {}
             try:
                 return self._render_impl(
-                    context, args, kwargs, slots, escape_slots_content, type, render_dependencies, request
+                    context, args, kwargs, slots, escape_slots_content, type, render_dependencies, request, render_state
                 )
             except Exception as err:
+                _cleanup_failed_render(render_state)
                 raise err from None
 
     def _render_impl(
@@ -986,6 +995,7 @@ class Component(
         type: RenderType = "document",
         render_dependencies: bool = True,
         request: Optional[HttpRequest] = None,
+        render_state: Optional[Dict[str, Any]] = None,
     ) -> str:
         # NOTE: We must run validation before we normalize the slots, because the normalization
         #       wraps them in functions.
@@ -1041,6 +1051,9 @@ class Component(
             parent_id = None
             component_path = [self.name]
             post_render_callbacks = {}
+
+        if render_state is not None:
+            render_state.update(render_id=render_id, parent_id=parent_id, callbacks=post_render_callbacks)
 
         trace_component_msg(
             "COMP_PREP_START",
@@ -1623,6 +1636,23 @@ class ComponentNode(BaseNode):
         )
 
         return output
+
+
+# If a render fails, the callbacks that normally remove the per-render entries never run.
+# So we remove the entries of the failed component, and, if the component was the root,
+# also the entries of all the nested components that were created along the way.
+def _cleanup_failed_render(render_state: Dict[str, Any]) -> None:
+    if "render_id" not in render_state:
+        return
+    render_ids = [render_state["render_id"]]
+    if render_state["parent_id"] is None:
+        render_ids.extend(render_state["callbacks"].keys())
+        render_state["callbacks"].clear()
+    for render_id in render_ids:
+        component_context_cache.pop(render_id, None)
+        component_renderer_cache.pop(render_id, None)
+        child_component_attrs.pop(render_id, None)
+        unregister_provide_reference(render_id)
 
 
 @contextmanager
